@@ -249,7 +249,7 @@ class C12(Spec):
 
     def random_cases(self, tier, seed):
         rnd = random.Random(seed * 7919 + 12)
-        n = 1500 if tier == 'quick' else 20000
+        n = 1500 if tier == 'quick' else 12000
         cases = []
         kinds = ['push_front', 'push_back', 'push_back', 'push_back', 'pop_front', 'pop_back', 'insert', 'erase',
                  'front', 'back', 'size', 'foreach', 'foreach', 'find', 'swap', 'clear', 'reverse', 'reverse',
@@ -321,13 +321,19 @@ SPEC = C12()
 
 MANIFEST = dict(
     text='Coq theorems (Properties_C12.v) over an executable pointer-level model of src/dlist.c (memory of {next, prev} '
-         'nodes, one update per C field write): in every reachable state each list is a well-formed ring (prev is the '
-         'inverse of next, size = number of nodes), the forward traversal is the reference sequence and the backward '
-         'traversal its mirror image, every call refines the reference sequence operation, pops on empty return NULL, '
-         'nothing faults. The model is tied to the C code on every run by differential execution (closure of the model '
-         'state space in a small scope + seeded random histories) under ASan/UBSan, with raw link walks in both directions.',
+         'nodes + size fields, one update per C field write, in program order): the representation predicate ring '
+         '(next-chain spells the sequence and returns to the head, prev is the inverse of next, no node twice) is '
+         'preserved by __cstl_dlist_insert/__cstl_dlist_erase with a frame; push/pop at both ends, insert, erase, '
+         'front/back/size, foreach (both directions, visitor that stops at the j-th call and optionally erases+frees or '
+         'erases+moves the visited element), find, swap, clear, concat, reverse (loop + adjacent-pair epilogue) and sort '
+         '(split, recursion on stack-local list objects, merge) all refine the reference sequence semantics; in every '
+         'reachable state of the scripted multi-list system every list is a well-formed ring, the forward walk is the '
+         'sequence and the backward walk its mirror image, pops on empty return NULL, nothing faults. The model is tied to '
+         'the C code on every run by differential execution (closure of the model state space in a small scope + seeded '
+         'random histories) under ASan/UBSan, with raw link walks in both directions done by the driver.',
     note='trusted: Coq kernel; hand transcription of dlist.c into DListModel.v validated only by the correspondence run; '
-         'extraction (ExtrOcamlBasic) + OCaml runner; C driver; comparison callbacks modelled as key projections',
-    technique='Coq proof (separation-style ring invariant + refinement by induction over operations) + model/code '
-              'differential correspondence',
+         'extraction (ExtrOcamlBasic) + OCaml runner; C driver; comparison callbacks modelled as key projections '
+         '(the driver varies the magnitude of comparator results); stability of sort is in the model, not in the theorems',
+    technique='Coq proof (separation-style ring invariant over a pointer-level heap, refinement by induction over '
+              'operations, loop invariants for reverse and merge sort) + model/code differential correspondence',
     design='6 (C12)')
